@@ -354,8 +354,28 @@ def oracle_grid(ctx, o):
             ctx.violation("S5", f"{nm} efficiency {effs[nm]!r} is not the formula value {e!r} of the returned rates", dict(setup_sig(s), kind="grid_formula", which=nm), rep)
 
 
-def oracle(ctx, obs):
+def obs_key(o):
+    k = o.get("kind")
+    if k == "eff":
+        return ["eff", o["c"], o["rs"], o["ri"]]
+    if k == "pw":
+        return ["pw", o["setup"]["config"], o["ws"], o["wi"], json.dumps(o["integrator"], sort_keys=True)]
+    if k in ("lim", "grid"):
+        return [k, o["setup"]["config"], json.dumps(o["integrator"], sort_keys=True)]
+    return [k, (o.get("setup") or {}).get("config")]
+
+
+def oracle(ctx, obs, args=None):
     for o in obs:
+        n0 = len(ctx.violations)
+        oracle_one(ctx, o)
+        for v in ctx.violations[n0:]:     # how to re-run exactly this input: ./check C08 --replay <file>
+            if isinstance(v.get("detail"), dict):
+                v["detail"]["replay"] = {"harness_args": [str(a) for a in (args or [])], "key": obs_key(o)}
+
+
+def oracle_one(ctx, o):
+    if True:
         k = o["kind"]
         if k == "harness_crash":
             ctx.violation("S5", "harness crashed", {"kind": "crash"}, o)
@@ -451,8 +471,92 @@ def real_found(ctx):
     return any(v["found_input"] and not match_finding(v, fnd, ctx.prop) for v in ctx.violations)
 
 
+def tag_obligations(ctx, n0, args):
+    for v in ctx.violations[n0:]:
+        if isinstance(v.get("detail"), dict) and "replay" not in v["detail"]:
+            v["detail"]["replay"] = {"harness_args": [str(a) for a in args], "obligation": True}
+
+
+GENERATORS = ["spectrum", "efficiencies", "pm_integrand", "pm_singles"]
+
+
+def replay(ctx, binp):
+    """./check C08 --replay <file>: re-run exactly the recorded input (rate triple / setup + frequency pair + integrator /
+    limit or grid setup) against the implementation and re-evaluate the recorded clause: exit 1 + VIOLATION (or KNOWN-FINDING,
+    exit 0, for a listed finding) if it still fails, exit 0 if not.  A record that names only a broken theorem / correspondence
+    case re-checks S2-S4.  Unreadable / foreign files: message, then a normal run."""
+    path = ctx.replay if os.path.isabs(ctx.replay) else os.path.join(VERIF, ctx.replay)
+    try:
+        rec = json.load(open(path))
+        det, sig = rec.get("detail") or {}, rec.get("signature") or {}
+        if rec.get("property") not in (None, ctx.prop) or not isinstance(det, dict) or not isinstance(sig, dict):
+            raise ValueError(f"not a {ctx.prop} replay record")
+    except (OSError, ValueError) as e:
+        ctx.note(f"replay file {ctx.replay} unreadable or not a {ctx.prop} record ({e}); running the normal check instead")
+        return None
+    ctx.binp = binp
+    ctx.corpus_hits = set()
+    rp = det.get("replay") or {}
+    args = rp.get("harness_args") or []
+    key = rp.get("key")
+    ctx.log(f"REPLAY recorded violation: {rec.get('what')}")
+    if sig.get("kind") in ("proof", "check_error", "internal") or rp.get("obligation") or not key:
+        ctx.log("REPLAY: the record names a proof obligation / correspondence case, not an input: re-checking S2-S4")
+        msgs, spans = regen(ctx, GENERATORS)
+        for m in msgs:
+            ctx.proof_failures.append(("Gen/Efficiencies.v", "translator", m))
+        if not msgs:
+            prove(ctx, "C08", extra_targets=["Proofs/C08_tac.vo"])
+        obs = run_harness(ctx, binp, args or ["c08", rec.get("seed", ctx.seed), 48, 3, 24, 6], timeout=1500)
+        if os.path.exists(os.path.join(COQ, "Proofs/C08_tac.vo")) and os.path.exists(os.path.join(COQ, "Gen/Efficiencies.vo")):
+            correspondence(ctx, obs)
+        ctx.log("REPLAY verdict: " + ("the obligations are still broken" if (ctx.proof_failures or ctx.violations) else "all obligations check on this tree"))
+        return finish(ctx)
+    hit, hargs = [], args
+    if key[0] == "eff":
+        hargs = ["c08", "eff"] + key[1:4]
+        hit = [o for o in run_harness(ctx, binp, hargs) if o["kind"] in ("eff", "eff_panic")]
+    elif key[0] == "pw" and isinstance(det.get("setup"), dict):
+        s_ = det["setup"]
+        integ = json.loads(key[4])
+        name = ("simpson%d" % integ["divs"]) if integ.get("method") == "Simpson" else ("gl%d" % integ.get("degree", 40))
+        tmp = os.path.join(VERIF, "evidence", "replays", f".c08-replay-{os.getpid()}.jsonl")
+        with open(tmp, "w") as f:
+            f.write(json.dumps({"id": "replay", "config": s_["config"], "idler_waist_um": s_["idler_waist_um"], "ws": key[2], "wi": key[3],
+                                "integrator": name, "setup": s_}) + "\n")
+        try:
+            call = run_harness(ctx, binp, ["c08", "corpus", tmp])
+        finally:
+            os.remove(tmp)
+        ctx.corpus_params = {o["id"]: o for o in call if o["kind"] == "params"}
+        hit = [o for o in call if o["kind"] in ("pw", "pw_panic")]
+    elif args:
+        if args[:2] == ["c08", "corpus"] and len(args) > 2 and not os.path.isabs(args[2]):
+            args = args[:2] + [os.path.join(VERIF, args[2])]
+        obs = run_harness(ctx, binp, args, timeout=1500)
+        if args[:2] == ["c08", "corpus"]:
+            ctx.corpus_params = {o["id"]: o for o in obs if o["kind"] == "params"}
+            obs = [o for o in obs if o["kind"] not in ("witness", "params")]
+        hit = [o for o in obs if obs_key(o) == key]
+        if not hit:
+            ctx.log(f"REPLAY: the recorded input is no longer produced by `vharness {' '.join(args)}`; evaluating every observation of that call instead")
+            hit = obs
+    if not hit:
+        ctx.note("replay record carries no re-runnable input; running the normal check instead")
+        return None
+    ctx.log(f"REPLAY: re-evaluating {len(hit)} observation(s)")
+    oracle(ctx, hit, hargs)
+    ctx.log("REPLAY verdict: " + ("reproduces on this tree" if ctx.violations else "does NOT reproduce on this tree"))
+    ctx.cov["rule"] = "replay of one recorded input"
+    return finish(ctx)
+
+
 def run(ctx):
     binp = build_harness(ctx)
+    if getattr(ctx, "replay", None):
+        r = replay(ctx, binp)
+        if r is not None:
+            return r
     msgs, spans = regen(ctx, ["spectrum", "efficiencies", "pm_integrand", "pm_singles"])
     ctx.cov["translated_spans"] = {k: v for k, v in spans.items() if k.startswith(("spdc::efficiencies", "jsa::joint_spectrum", "phasematch::normalization"))}
     for m in msgs:
@@ -470,16 +574,18 @@ def run(ctx):
     corpus_file = os.path.join(HARNESS, "corpus", "c08.jsonl")
     cobs = []
     if os.path.exists(corpus_file):
+        cargs = ["c08", "corpus", os.path.relpath(corpus_file, VERIF)]
         call = run_harness(ctx, binp, ["c08", "corpus", corpus_file])
         ctx.corpus_params = {o["id"]: o for o in call if o["kind"] == "params"}
         cobs = [o for o in call if o["kind"] not in ("witness", "params")]
-        oracle(ctx, cobs)
+        oracle(ctx, cobs, cargs)
         ids = {o["tag"] for o in cobs if o["kind"] == "pw"}
         gone = sorted(ids - ctx.corpus_hits)
         if gone:
             ctx.note(f"finding singles_sqrt_branch: corpus inputs {', '.join(gone)} no longer reproduce on this tree")
-    obs = run_harness(ctx, binp, ["c08", ctx.seed] + args, timeout=1500)
-    oracle(ctx, obs)
+    hargs = ["c08", ctx.seed] + args
+    obs = run_harness(ctx, binp, hargs, timeout=1500)
+    oracle(ctx, obs, hargs)
     for o in sorted((x for x in obs if x["kind"] in ("pw", "eff")), key=lambda x: 0 if x["kind"] == "pw" else 1):
         if o["kind"] == "pw" and o["tag"] != "centre" and len(ctx.cov["samples"]) < 3:
             ctx.sample({"family": o["setup"]["family"], "tag": o["tag"], "omega_s": fh(o["ws"]), "omega_i": fh(o["wi"]), "jsi": fh(o["jsi"]),
@@ -490,7 +596,9 @@ def run(ctx):
         if o["kind"] == "eff" and fh(o["rs"]) == 0:
             ctx.sample({"rates": [fh(o["c"]), fh(o["rs"]), fh(o["ri"])], "efficiencies": [fh(o["symmetric"]), fh(o["signal"]), fh(o["idler"])]}, limit=7)
     if os.path.exists(os.path.join(COQ, "Proofs/C08_tac.vo")) and os.path.exists(os.path.join(COQ, "Gen/Efficiencies.vo")):
+        n0 = len(ctx.violations)
         correspondence(ctx, obs)
+        tag_obligations(ctx, n0, hargs)
     else:
         ctx.note("correspondence cases skipped: generated model / case tactics did not compile")
     if not quick and os.path.exists(os.path.join(COQ, "Gen/PMSingles.vo")):
@@ -504,8 +612,9 @@ def run(ctx):
     if (not proved or any(not v["found_input"] for v in ctx.violations)) and not real_found(ctx):
         ctx.log("S5 deep search for a failing input (proof obligations or correspondence are broken)")
         for k in range(2):
-            obs2 = run_harness(ctx, binp, ["c08", ctx.seed + 1000 + k, 240, 4, 60, 12], timeout=1500)
-            oracle(ctx, obs2)
+            a2 = ["c08", ctx.seed + 1000 + k, 240, 4, 60, 12]
+            obs2 = run_harness(ctx, binp, a2, timeout=1500)
+            oracle(ctx, obs2, a2)
             if real_found(ctx):
                 break
     ctx.cov["rule"] = ("rate triples: fixed zero/NaN/inf/extreme cases + log-uniform rates over 24 decades, 70% with C <= min(Rs,Ri), 15% with a "
